@@ -142,23 +142,4 @@ def main():
                extra={'inputs': len(cases), 'accepted_without_error': nok, 'rejected_with_error': nerr, 'known_invalid_inputs': ninv, 'asan_memory_cap_hits_no_verdict': nmem, 'classes': classes, 'seeds': len(pool)},
                min_eval=N // 2)
 
-def fault_site(b, p, variant):
-    """innermost repository function of a fault on the plain build, from the hook's backtrace"""
-    blob = (p.err + p.out).decode(errors='replace')
-    m = re.search(r'ALDOR_VERIF_BT begin\n(.*?)ALDOR_VERIF_BT end', blob, re.S)
-    if not m:
-        mm = re.search(r'Bug: ([^\n]{0,60})', blob)
-        if mm: return 'bug:' + re.sub(r'[^A-Za-z]+', '-', mm.group(1))[:40]
-        mm = re.search(r'Assertion failed[^\n]*file ([\w.]+)', blob) or re.search(r'([\w.]+):\d+: [^\n]*Assertion', blob)
-        return 'assert:' + (mm.group(1) if mm else '?')
-    addrs = re.findall(r'\(\+(0x[0-9a-f]+)\)', m.group(1))
-    exe = b.aldor
-    if not addrs: return '?'
-    r = run(['addr2line', '-f', '-e', exe] + addrs[:12], timeout=60)
-    names = r.out.decode(errors='replace').split('\n')[0::2]
-    for nm in names:
-        if nm and nm not in ('compSignalHandler', 'verifBacktrace', '??', 'osFaultHandler', 'osSignalHandler') and not nm.startswith('_'):
-            return nm
-    return '?'
-
 main_guard(main)
